@@ -1046,10 +1046,11 @@ impl DNSPkt {
             | (if self.aa { 0b0000_0100 } else { 0b0 })
             | (if self.qr { 0b1000_0000 } else { 0b0 })
             | (self.opcode.0 << 3);
-        let flag2: u8 = (if self.cd { 0b0010_0000 } else { 0b0 })
-            |(if self.ad { 0b0100_0000 } else { 0b0 })
+        /* RFC1035 Section 4.1.1 as updated by RFC2535 Section 6.1: RA Z AD CD RCODE(4) */
+        let flag2: u8 = (if self.cd { 0b0001_0000 } else { 0b0 })
+            |(if self.ad { 0b0010_0000 } else { 0b0 })
             |(if self.ra { 0b1000_0000 } else { 0b0 })
-            //             0b0001_0000
+            //             0b0100_0000 (Z, must be zero)
             |((self.rcode.0 & 0b0000_1111) as u8);
         let mut additional = self.additional.clone();
 
